@@ -207,7 +207,7 @@ def do_check(pid, tier, keep=False, only=None):
                             rec['status'] = 'KNOWN-FINDING ' + kf_id
                             rec['known_finding'] = True
                         else:
-                            hv.append({'unit': u, 'harness': hn, 'clause': clause, 'oid': oid, 'detail': detail, 'kani_out': r['out'], 'krun': krun,
+                            hv.append({'unit': u, 'harness': hn, 'clause': clause, 'oid': oid, 'detail': detail, 'kani_out': r['out'], 'krun': krun, 'solver': r.get('final_solver'),
                                        'descs': sorted(res['obl_desc'].get(clause, [])) if clause != 'no_panic' else [d['desc'] for d in res['panics']]})
                     elif st == 'UNREACHABLE':
                         undecided.append(f'{u.name}:{hn}: vacuity guard: clause {clause} unreachable')
@@ -350,15 +350,24 @@ def make_replay(pid, v, krun):
     tail = v['kani_out'].split('RESULTS:', 1)
     rec['verifier_output'] = ('RESULTS:' + tail[1])[-8000:] if len(tail) == 2 else v['kani_out'][-8000:]
     try:
-        r = krun.run_harness(u, v['harness'], playback=True)
-        tests = K.parse_playback(r['out'])
-        wanted = []
-        for t in tests:
-            if t['desc'] in v.get('descs', []):
-                wanted.append(t)
-        if not wanted and v['clause'] != 'no_panic':
-            wanted = [t for t in tests if t['class'] != 'cover' and not K.IGNORED_DESC.match(t['desc'])][:1]
-        wanted = wanted[:2]
+        wanted, twin_used = [], False
+        if K.has_twin(u, v['harness']):
+            # non-modular twin (no stubs): its counterexample is meaningful on the real code
+            r = krun.run_harness(u, v['harness'], playback=True, twin=True, solver_override='cadical', timeout=300)
+            tests = K.parse_playback(r['out'])
+            wanted = [t for t in tests if t['class'] != 'cover' and not K.IGNORED_DESC.match(t['desc'])][:2]
+            twin_used = bool(wanted)
+            if not wanted:
+                rec['twin_note'] = 'the non-modular twin harness produced no counterexample within 300 s (the change may be unobservable through this function, or the search timed out)'
+        if not wanted:
+            r = krun.run_harness(u, v['harness'], playback=True, solver_override=v.get('solver'))
+            tests = K.parse_playback(r['out'])
+            for t in tests:
+                if t['desc'] in v.get('descs', []):
+                    wanted.append(t)
+            if not wanted and v['clause'] != 'no_panic':
+                wanted = [t for t in tests if t['class'] != 'cover' and not K.IGNORED_DESC.match(t['desc'])][:1]
+            wanted = wanted[:2]
         if wanted:
             rec['counterexample'] = [{'test': t['fn'], 'for_check': t['desc'], 'values_in_harness_order': t['values'], 'code': t['code']} for t in wanted]
             # native replay: same harness fn, real code, concrete values
@@ -369,7 +378,7 @@ def make_replay(pid, v, krun):
             finally:
                 k2.close()
             native = extract_native(out)
-            rec['native_replay'] = {'rc': rc, 'reproduced': rc != 0 and 'panicked at' in out, 'output': native}
+            rec['native_replay'] = {'rc': rc, 'reproduced': native_failed(out), 'output': native, 'harness_run': v['harness'] + ('__direct (non-modular twin, no stubs)' if twin_used else '')}
             has_input = rec['native_replay']['reproduced']
             if not has_input:
                 rec['note'] = 'the verifier\'s counterexample did not fail when replayed natively (stub/contract-level failure); reported with no-failing-input-found'
@@ -380,6 +389,16 @@ def make_replay(pid, v, krun):
     rec['replay_cmd'] = f'python3 {VERIF}/vx/check.py --replay {path}'
     dump_json(path, rec)
     return path, has_input
+
+
+def native_failed(out):
+    """a native replay counts only if the real code / a named clause panicked - not Kani's own
+    'concrete values left over' bookkeeping panic"""
+    for m in re.finditer(r'panicked at ([^\n]*):\n([^\n]*)', out):
+        if 'concrete_playback.rs' in m.group(1):
+            continue
+        return True
+    return False
 
 
 def extract_native(out):
@@ -411,7 +430,7 @@ def do_replay(path):
     for c in rec['counterexample']:
         print('inputs (in harness order):', [(x['shown_as']) for x in c['values_in_harness_order']])
     print(extract_native(out))
-    if rc != 0 and 'panicked at' in out:
+    if rc != 0 and native_failed(out):
         print(f'REPRODUCED: the recorded input still violates {rec["obligation"]} on the current tree')
         return EXIT_VIOLATION
     if rc != 0:
